@@ -224,7 +224,9 @@ func codecSection(o *hlib.Out, seed uint64) {
 			// decisions on damaged and on arbitrary encodings
 			for m := 0; m < 6; m++ {
 				y2 := append([]byte(nil), y...)
-				switch rng.Intn(5) {
+				switch rng.Intn(6) {
+				case 5:
+					y2 = overrunHint(rng, ps)
 				case 0:
 					y2[rng.Intn(len(y2))] ^= 1 << uint(rng.Intn(8))
 				case 1:
@@ -245,7 +247,12 @@ func codecSection(o *hlib.Out, seed uint64) {
 					}
 				}
 				want := specHintUnpack(ps.omega, ps.k, y2)
-				got, err := ps.par.VerifHintBitUnpack(y2)
+				var got [][]uint32
+				var err error
+				if p := hlib.Recover(func() { got, err = ps.par.VerifHintBitUnpack(y2) }); p != "" {
+					o.Violate("hintBitUnpack(ML-DSA-%s) PANICS on %x: %s", ps.name, y2, p)
+					continue
+				}
 				if (want == nil) != (err != nil) {
 					o.Violate("hintBitUnpack(ML-DSA-%s) decision differs from FIPS 204 Alg. 21 on %x: Go err=%v, standard ⊥=%v", ps.name, y2, err, want == nil)
 				} else if want != nil {
@@ -280,6 +287,33 @@ func codecSection(o *hlib.Out, seed uint64) {
 				o.Violate("w1Encode(ML-DSA-%s) differs from FIPS 204 Alg. 28", ps.name)
 			}
 			o.Count("codec/w1Encode")
+		}
+	}
+	// ExpandMask (Alg. 34) incl. counters ≥ 256, which ordinary signing reaches only after 64+
+	// rejections: y_r = BitUnpack(H(ρ″ ‖ IntegerToBytes(μ + r, 2), 32·(1+bitlen(γ1−1))), γ1−1, γ1)
+	for c := 0; c < hlib.N(20, 300); c++ {
+		for _, ps := range psets {
+			var rho [64]byte
+			copy(rho[:], rng.Bytes(64))
+			mu := rng.Pick(0, ps.l, 252, 255, 256, 257, 256+ps.l*rng.Intn(200), 65535-ps.l, ps.l*rng.Intn(16000))
+			got := ps.par.VerifExpandMask(rho, mu)
+			for r := 0; r < ps.l; r++ {
+				n := mu + r
+				v := shake256(32*ps.zBits, rho[:], []byte{byte(n), byte(n >> 8)})
+				ints := specUnpack(v, ps.zBits)
+				for i := range ints {
+					ints[i] = uint32((int64(ps.gamma1) - int64(ints[i]) + q) % q)
+				}
+				if !eqU32(got[r], ints) {
+					o.Violate("expandMask(ML-DSA-%s, κ = %d) polynomial %d differs from FIPS 204 Alg. 34", ps.name, mu, r)
+					break
+				}
+			}
+			if mu+ps.l > 256 {
+				o.Count("codec/expandMask-κ≥256")
+			} else {
+				o.Count("codec/expandMask-κ<256")
+			}
 		}
 	}
 	// NTT laws: NTT⁻¹(NTT(w)) = w, and NTT⁻¹(NTT(a) ∘ NTT(b)) = a·b in Z_q[X]/(X^256+1)
